@@ -464,7 +464,8 @@ class IntegerSequence(SequenceBase):
 
     def get_nearest_prev_point(self, point):
         """Return the largest point < some arbitrary point."""
-        if self.is_on_sequence(point):
+        if self.is_valid(point):
+            # (on the sequence *and* within its bounds)
             return self.get_prev_point(point)
         sequence_point = self._get_point_in_bounds(self.p_start)
         prev_point = None
